@@ -168,6 +168,24 @@ fn spreads_in<'a>(ss: &SelectionSet<'a>, acc: &mut Vec<&'a str>) {
         }
     }
 }
+/// does the fragment-spread graph of the document contain a cycle?
+fn has_fragment_cycle(doc: &OperationDocument) -> bool {
+    let mut frags: BTreeMap<&str, Vec<&str>> = BTreeMap::new();
+    for d in &doc.definitions {
+        if let ExecutableDefinition::FragmentDefinition(f) = d { let mut v = vec![]; spreads_in(&f.selection_set, &mut v); frags.entry(f.name.name).or_default().extend(v); }
+    }
+    // colour DFS
+    fn visit<'a>(n: &'a str, g: &BTreeMap<&'a str, Vec<&'a str>>, state: &mut BTreeMap<&'a str, u8>) -> bool {
+        match state.get(n) { Some(1) => return true, Some(2) => return false, _ => {} }
+        state.insert(n, 1);
+        if let Some(vs) = g.get(n) { for v in vs { if g.contains_key(v) && visit(v, g, state) { return true; } } }
+        state.insert(n, 2);
+        false
+    }
+    let mut state = BTreeMap::new();
+    let keys: Vec<&str> = frags.keys().copied().collect();
+    keys.into_iter().any(|k| visit(k, &frags, &mut state))
+}
 /// (has a fragment definition no operation reaches, some spread names an undefined fragment)
 fn doc_features(doc: &OperationDocument) -> (bool, bool) {
     let mut frags: BTreeMap<&str, Vec<&str>> = BTreeMap::new();
@@ -188,6 +206,38 @@ fn doc_features(doc: &OperationDocument) -> (bool, bool) {
     for v in frags.values() { for n in v { if !frags.contains_key(n) { undefined = true; } } }
     let unspread = frags.keys().any(|k| !seen.contains(k));
     (unspread, undefined)
+}
+/// two field selections of one merged scope share a response key but differ in field name or in having a
+/// sub-selection ("Field Selection Merging", which check does not implement); type conditions are ignored
+fn conflicting_response_keys(doc: &OperationDocument) -> bool {
+    let mut frags: BTreeMap<&str, &SelectionSet> = BTreeMap::new();
+    for d in &doc.definitions { if let ExecutableDefinition::FragmentDefinition(f) = d { frags.entry(f.name.name).or_insert(&f.selection_set); } }
+    fn gather<'a, 'b>(ss: &'b SelectionSet<'a>, frags: &BTreeMap<&'a str, &'b SelectionSet<'a>>, seen: &mut Vec<&'a str>, out: &mut Vec<(&'a str, &'a str, Option<&'b SelectionSet<'a>>)>) {
+        for s in &ss.selections {
+            match s {
+                Selection::Field(f) => out.push((f.alias.map(|a| a.name).unwrap_or(f.name.name), f.name.name, f.selection_set.as_ref())),
+                Selection::InlineFragment(i) => gather(&i.selection_set, frags, seen, out),
+                Selection::FragmentSpread(sp) => { let n = sp.fragment_name.name; if !seen.contains(&n) { seen.push(n); if let Some(fs) = frags.get(n) { gather(fs, frags, seen, out); } } }
+            }
+        }
+    }
+    fn scope<'a, 'b>(sets: &[&'b SelectionSet<'a>], frags: &BTreeMap<&'a str, &'b SelectionSet<'a>>, depth: usize) -> bool {
+        if depth > 12 { return false; }
+        let mut fields = vec![];
+        for ss in sets { let mut seen = vec![]; gather(ss, frags, &mut seen, &mut fields); }
+        let mut by_key: BTreeMap<&str, Vec<(&str, Option<&SelectionSet>)>> = BTreeMap::new();
+        for (k, n, sub) in fields { by_key.entry(k).or_default().push((n, sub)); }
+        for v in by_key.values() {
+            if v.iter().any(|(n, sub)| *n != v[0].0 || sub.is_some() != v[0].1.is_some()) { return true; }
+            let subs: Vec<&SelectionSet> = v.iter().filter_map(|(_, s)| *s).collect();
+            if !subs.is_empty() && scope(&subs, frags, depth + 1) { return true; }
+        }
+        false
+    }
+    doc.definitions.iter().any(|d| match d {
+        ExecutableDefinition::OperationDefinition(o) => scope(&[&o.selection_set], &frags, 0),
+        ExecutableDefinition::FragmentDefinition(f) => scope(&[&f.selection_set], &frags, 0),
+    })
 }
 fn dup_import_targets(ext: &OperationExtension) -> bool {
     ext.imports.iter().any(|i| match &i.targets {
@@ -276,7 +326,7 @@ fn run_schema_case(texts: &[String], keep_renders: bool) -> CaseOut {
 
 /// operation pipeline as the CLI runs it (`check` then `generate`) plus the loader route; `ops[0]` is the
 /// document under test, the others are companion files it may import from
-fn run_op_case(sdl: &str, ops: &[String], keep_renders: bool) -> CaseOut {
+fn run_op_case(sdl: &str, ops: &[String], keep_renders: bool, allow_cyclic: bool) -> CaseOut {
     let mut out = CaseOut::default();
     let mut files: Files = vec![(PathBuf::from("/p/schema/s0.graphql"), sdl.to_string(), ())];
     for (i, t) in ops.iter().enumerate() { files.push((PathBuf::from(format!("/p/ops/q{i}.graphql")), t.clone(), ())); }
@@ -351,7 +401,15 @@ fn run_op_case(sdl: &str, ops: &[String], keep_renders: bool) -> CaseOut {
     // generate
     for doc in full.iter().take(1) {
         let (unspread, _) = doc_features(doc);
-        let tags = if unspread { vec!["unspread-fragment"] } else { vec![] };
+        let mut tags = if unspread { vec!["unspread-fragment"] } else { vec![] };
+        if conflicting_response_keys(doc) { tags.push("conflicting-response-key"); }
+        if has_fragment_cycle(doc) && !allow_cyclic {
+            // check accepted a fragment cycle (only possible among fragments nothing spreads): the type printer
+            // recurses through it without a visited set -> stack overflow, which no catch_unwind survives.
+            // The case is re-run in a child process (see Run::case).
+            out.stages.push(Stage { name: "print_types_for_operation_document", res: "deferred-to-child", panic: None, tags: vec!["unspread-fragment-cycle"] });
+            return out;
+        }
         match guarded(|| { let mut w = SourceWriter::new(); print_types_for_operation_document(OperationTypePrinterOptions::from_config(&config), &schema, doc, &mut w); w.into_buffers().buffer.len() }) {
             Err(p) => out.panic("print_types_for_operation_document", p, tags.clone()), Ok(_) => out.ok("print_types_for_operation_document"),
         }
@@ -388,7 +446,7 @@ enum Job { Schema(Vec<String>), Op(String, Vec<String>), Config(String), Render(
 fn run_job(job: &Job, keep: bool) -> CaseOut {
     match job {
         Job::Schema(t) => run_schema_case(t, keep),
-        Job::Op(s, o) => run_op_case(s, o, keep),
+        Job::Op(s, o) => run_op_case(s, o, keep, false),
         Job::Config(t) => run_config_case(t),
         Job::Render(files, pos, msg, addl) => {
             let mut out = CaseOut::default();
@@ -603,6 +661,7 @@ struct Run {
     n_render_cases: usize,
     n_parse_cases: usize,
     limit: Duration,
+    scratch: PathBuf,
 }
 impl Run {
     fn note(&mut self, stream: &str, key: String) { *self.dist.entry(stream.to_string()).or_default().entry(key).or_default() += 1; }
@@ -623,6 +682,7 @@ impl Run {
         if fresh && lex(&key).len() >= 3 { self.nontrivial += 1; }
         self.evaluations += 1;
         let keep = self.n_render_cases < self.render_budget;
+        let op_payload = if let Job::Op(s, o) = &job { Some((s.clone(), o.clone())) } else { None };
         let (res, ms) = exec(job, keep, self.limit);
         if ms > self.max_ms { self.max_ms = ms; }
         if ms > 2000 { self.slow.push(json!({"stream": stream, "kind": kind, "ms": ms as u64, "input": input})); }
@@ -631,11 +691,16 @@ impl Run {
             self.fail(format!("timeout:{kind}"), format!("{kind}: no result within {} s (non-termination or excessive time)", self.limit.as_secs()), json!({"stream": stream, "kind": kind, "input": input}));
             return None;
         };
+        if out.stages.iter().any(|s| s.res == "deferred-to-child") {
+            if let Some((sdl, ops)) = &op_payload { self.child_case(stream, kind, sdl, ops, &input); }
+        }
         for st in &out.stages {
             self.note(stream, format!("{}:{}", st.name, st.res));
             if let Some(p) = &st.panic {
                 let mut class = format!("panic:{}:{}", p.file, msg_key(&p.msg));
-                for t in &st.tags { class.push(':'); class.push_str(t); }
+                // the input feature that explains this site: merge panics <- conflicting response keys, the others <- the remaining tags
+                let merge = p.msg.starts_with("Cannot merge");
+                for t in st.tags.iter().filter(|t| (**t == "conflicting-response-key") == merge) { class.push(':'); class.push_str(t); }
                 self.fail(class, format!("{} panics at {}:{} ({})", st.name, p.file, p.line, plain(&p.msg)),
                           json!({"stream": stream, "kind": kind, "stage": st.name, "site": format!("{}:{}", p.file, p.line), "message": p.msg, "input": input}));
             }
@@ -652,6 +717,35 @@ impl Run {
         }
         if self.samples.len() < 6 && self.evaluations % 400 == 1 { self.samples.push(json!({"stream": stream, "kind": kind, "input": input, "stages": out.stages.iter().map(|s| format!("{}:{}", s.name, s.res)).collect::<Vec<_>>() })); }
         Some(out)
+    }
+    /// re-runs an operation case whose generation step may overflow the stack in a child process
+    fn child_case(&mut self, stream: &'static str, kind: &'static str, sdl: &str, ops: &[String], input: &J) {
+        let dir = self.scratch.join(format!("child-{}", self.evaluations));
+        let _ = std::fs::create_dir_all(&dir);
+        std::fs::write(dir.join("schema.graphql"), sdl).unwrap();
+        for (i, t) in ops.iter().enumerate() { std::fs::write(dir.join(format!("q{i}.graphql")), t).unwrap(); }
+        let exe = std::env::current_exe().unwrap();
+        let o = std::process::Command::new(exe).arg("--child-op").arg(&dir).arg(ops.len().to_string()).env("RUST_BACKTRACE", "0").output();
+        let _ = std::fs::remove_dir_all(&dir);
+        match o {
+            Err(e) => self.fail("child-spawn".into(), format!("cannot run the child process: {e}"), json!({"input": input})),
+            Ok(o) => {
+                let err = String::from_utf8_lossy(&o.stderr).to_string();
+                let out = String::from_utf8_lossy(&o.stdout).to_string();
+                if o.status.success() {
+                    self.note(stream, format!("child-process:{}", out.trim()));
+                    if out.contains("panic") {
+                        self.fail(format!("panic:child:{}", plain(&out)), format!("{kind}: generation in the child process panics: {}", plain(&out)), json!({"stream": stream, "kind": kind, "input": input}));
+                    }
+                } else {
+                    let overflow = err.contains("overflowed its stack");
+                    self.note(stream, format!("child-process:abort{}", if overflow { ":stack-overflow" } else { "" }));
+                    let class = if overflow { "abort:stack-overflow:print_types_for_operation_document:unspread-fragment-cycle".to_string() } else { format!("abort:{:?}", o.status.code()) };
+                    self.fail(class, format!("print_types_for_operation_document aborts the process ({}) on a document check accepts: {}", if overflow { "stack overflow" } else { "abnormal exit" }, plain(&err)),
+                              json!({"stream": stream, "kind": kind, "stage": "print_types_for_operation_document", "input": input, "stderr_head": err.chars().take(300).collect::<String>()}));
+                }
+            }
+        }
     }
     /// outcome class of one parser on one text, as a Coq case against C07's parser model
     fn parse_case(&mut self, stream: &'static str, ts: bool, text: &str) {
@@ -688,6 +782,18 @@ fn import_variants(rng: &mut Rng, frag_names: &[String]) -> String {
 fn main() {
     install_hook();
     std::env::set_var("NO_COLOR", "1");
+    let raw: Vec<String> = std::env::args().collect();
+    if raw.len() >= 4 && raw[1] == "--child-op" {
+        // child mode: one operation case, generation included even for cyclic fragments; prints the stage outcomes
+        let dir = PathBuf::from(&raw[2]);
+        let n: usize = raw[3].parse().unwrap_or(1);
+        let sdl = std::fs::read_to_string(dir.join("schema.graphql")).unwrap();
+        let ops: Vec<String> = (0..n).map(|i| std::fs::read_to_string(dir.join(format!("q{i}.graphql"))).unwrap()).collect();
+        let out = run_op_case(&sdl, &ops, false, true);
+        let v: Vec<String> = out.stages.iter().map(|s| format!("{}:{}", s.name, s.res)).collect();
+        println!("{}", v.join(","));
+        return;
+    }
     let args = parse_args();
     let thorough = args.tier == "thorough";
     let mut rng = Rng::new(args.seed);
@@ -697,8 +803,9 @@ fn main() {
         direct: vec![], per_class: BTreeMap::new(), dist: BTreeMap::new(), distinct: HashSet::new(), nontrivial: 0, evaluations: 0,
         max_ms: 0, slow: vec![], samples: vec![], render_budget: if thorough { 2400 } else { 600 }, parse_budget: if thorough { 1600 } else { 330 },
         n_render_cases: 0, n_parse_cases: 0, limit: Duration::from_secs(if thorough { 60 } else { 20 }),
+        scratch: args.out.join("scratch"),
     };
-    let scale = if thorough { 12 } else { 1 };
+    let scale = if thorough { 24 } else { 1 };
 
     // ---- 0. corpus: the witnesses of the refuted lemmas and of defects repaired earlier
     let corpus_ops: &[(&str, &str)] = &[
@@ -712,6 +819,11 @@ fn main() {
         ("query Q { a { i } }\nfragment U on Query { nonexistent }", "unspread fragment with unknown field"),
         ("query Q { i }\nfragment U on Query { i ...Missing }", "unspread fragment spreading an undefined fragment"),
         ("query Q { i ...Missing }", "spread of an undefined fragment"),
+        ("query Q { i }\nfragment A on Query { a { ...A } }", "fragment cycle that no operation reaches"),
+        ("query Q { x: i x: a { i } }", "same response key, leaf and object"),
+        ("query Q { x: l { i } x: a { i } }", "same response key, list and non-list object"),
+        ("query Q { x: i x: s }", "same response key, different leaf types"),
+        ("query Q { u { ... on A { x: id } ... on B { x: b } } }", "same response key in disjoint branches"),
         ("#import FA, FA from \"./q1.graphql\"\nquery Q { ...FA }", "duplicate import target"),
         ("\u{3000}query { a }", "syntax error on a line indented with U+3000"),
         ("query Q {\r  nonexistent\r}", "lone CR line terminators + check error"),
@@ -762,7 +874,16 @@ fn main() {
             }
             // semantic faults on the structured document
             let mut d2 = d.clone();
-            let fault = match rng.below(6) {
+            let fault = match rng.below(7) {
+                6 => {
+                    // the same response key for a leaf and for a composite field (Field Selection Merging is not checked)
+                    let comp = s.fields_of(&s.query).iter().find(|f| s.is_composite(f.ty.named()) && f.args.iter().all(|a| !a.ty.is_nonnull() || a.default.is_some())).map(|f| f.name.clone());
+                    if let (Some(o), Some(c)) = (d2.ops.first_mut(), comp) {
+                        o.sel.push(g::Sel::Field { alias: Some("k9".into()), name: "__typename".into(), args: vec![], dirs: vec![], sub: None });
+                        o.sel.push(g::Sel::Field { alias: Some("k9".into()), name: c, args: vec![], dirs: vec![], sub: Some(vec![g::Sel::Field { alias: None, name: "__typename".into(), args: vec![], dirs: vec![], sub: None }]) });
+                    }
+                    "one response key for a leaf and a composite field"
+                }
                 0 => { d2.frags.push(g::Frag { name: "U9".into(), cond: s.query.clone(), dirs: vec![], sel: vec![g::Sel::Field { alias: None, name: "nonexistent".into(), args: vec![], dirs: vec![], sub: None }] }); "unspread fragment with an unknown field" }
                 1 => { d2.frags.push(g::Frag { name: "U8".into(), cond: s.query.clone(), dirs: vec![], sel: vec![g::Sel::Field { alias: None, name: "__typename".into(), args: vec![], dirs: vec![], sub: None }, g::Sel::Spread { name: "Missing".into(), dirs: vec![] }] }); "unspread fragment spreading an undefined fragment" }
                 2 => { if let Some(o) = d2.ops.first_mut() { o.sel.push(g::Sel::Spread { name: "Missing".into(), dirs: vec![] }); } "spread of an undefined fragment in an operation" }
@@ -907,7 +1028,7 @@ fn main() {
         let mk_pos = |rng: &mut Rng, files: &Files| -> RPos {
             let file = rng.below(files.len());
             let nl = files[file].1.lines().count();
-            let line = match rng.below(10) { 0 => nl + rng.below(4), 1 => usize::MAX - rng.below(3), 2 => 1usize << 40, _ => rng.below(nl.max(1)) };
+            let line = match rng.below(10) { 0 => nl + rng.below(4), 1 => usize::MAX - 1 - rng.below(3), 2 => 1usize << 40, _ => rng.below(nl.max(1)) };
             let col = match rng.below(10) { 0 => rng.range(20, 400), 1 => rng.range(400, 2500), _ => rng.below(24) };
             RPos { line, col, file, builtin: rng.chance(1, 12) }
         };
@@ -955,6 +1076,7 @@ fn main() {
         projects.push(("deep selection nesting (60)", FIXED_SCHEMA.into(), vec![deep_ops(60)[0].0.clone(), deep_ops(60)[2].0.clone()], None, vec![]));
         projects.push(("lone surrogate escape", vsdl.clone(), vec!["query Q { __typename @skip(if: \"\\uD800\") }\n".into()], None, vec!["unicode-escape"]));
         projects.push(("unspread fragment with unknown field", vsdl.clone(), vec![format!("query Q {{ __typename }}\nfragment U on {q} {{ nonexistent }}\n")], None, vec!["unspread-fragment"]));
+        projects.push(("fragment cycle that no operation reaches", FIXED_SCHEMA.into(), vec!["query Q { i }\nfragment A on Query { a { ...A } }\n".into()], None, vec!["unspread-fragment-cycle"]));
         projects.push(("duplicate import target", vsdl.clone(), vec![format!("#import FA, FA from \"./q1.graphql\"\nquery Q {{ ...FA }}\n"), format!("fragment FA on {q} {{ __typename }}\n")], None, vec!["duplicate-import-target"]));
         for (k, (what, schema, ops, cfg, tags)) in projects.iter().enumerate() {
             let dir = base.join(format!("p{k}"));
@@ -976,8 +1098,15 @@ fn main() {
                     *cli_stats.entry(format!("{}", code.map(|c| c.to_string()).unwrap_or("signal".into()))).or_default() += 1;
                     let err = String::from_utf8_lossy(&o.stderr).to_string();
                     let panicked = err.contains("panicked at ");
+                    let overflowed = err.contains("overflowed its stack");
+                    if overflowed {
+                        let mut class = "abort:stack-overflow:print_types_for_operation_document".to_string();
+                        for t in tags { class.push(':'); class.push_str(t); }
+                        run.fail_k(class, format!("nitrogql-cli aborts with a stack overflow on project '{what}' (exit status {:?})", code),
+                                   json!({"stream": "cli", "project": what, "schema": schema, "operations": ops, "exit_status": code, "stderr_head": err.chars().take(300).collect::<String>()}), usize::MAX);
+                    } else
                     if panicked { *cli_stats.entry(format!("panic message on stderr with exit status {}", code.map(|c| c.to_string()).unwrap_or("signal".into()))).or_default() += 1; }
-                    if (code != Some(0) && code != Some(1)) || panicked {
+                    if !overflowed && ((code != Some(0) && code != Some(1)) || panicked) {
                         // "thread 'main' panicked at crates/.../x.rs:LINE:COL:\nmessage"
                         let (site, msg) = err.split("panicked at ").nth(1).map(|r| { let mut l = r.lines(); (l.next().unwrap_or("").trim_end_matches(':').to_string(), l.next().unwrap_or("").to_string()) }).unwrap_or(("?".into(), err.chars().take(200).collect()));
                         let file = norm_file(site.split(':').next().unwrap_or("?"));
